@@ -37,6 +37,18 @@ def cases(tier):
             for new in range(0, d + 3):
                 out.append({"id": f"resize/{lid}/{entry}/{d}to{new}", "what": "resize", "world": w, "target": t,
                             "entry": entry, "new": new})
+    # label states |n> with n >= 1: the boundary request "new dimension = n"
+    for lab in (1, 2):
+        w = cm.world(cm.subs(1, 0, d), [{"kind": "own", "sub": "f0", "level": "L", "label": lab},
+                                       {"kind": "own", "sub": "p0", "level": "V"}])
+        wc = cm.world(cm.subs(2, 0, d), [{"kind": "own", "sub": "f0", "level": "L", "label": lab},
+                                        {"kind": "ps", "ce": 0, "members": ["p1", "f1"], "level": "V"}], [["e0", "e1"]])
+        for new in range(0, d + 2):
+            for entry in ("state", "envelope"):
+                out.append({"id": f"resize/S-L{lab}/{entry}/{d}to{new}", "what": "resize", "world": w, "target": "f0",
+                            "entry": entry, "new": new})
+            out.append({"id": f"resize/C0-L{lab}/composite/{d}to{new}", "what": "resize", "world": wc, "target": "f0",
+                        "entry": "composite", "new": new})
     # (b) operations with automatic dimension
     for lid, w, t, entries in cm.layouts_for_target("fock", "quick", dF=3, dC=2):
         if not (lid in ("S-V", "S-M", "E1-PF-V", "E1-FP-M", "C1-pos1-V", "C1-pos2-V")):
